@@ -23,6 +23,13 @@
 (* *reservation*; PERRES = FALSE is the property ("a spilling consumer's    *)
 (* fair share"): the *consumer's* total is bounded.  FairPerConsumer fails  *)
 (* under PERRES = TRUE (known finding).                                     *)
+(*                                                                         *)
+(* MUT = TRUE replaces the greedy pool's atomic compare-and-add by an       *)
+(* optimistic add followed by a check and a rollback (pend[t][3] = bytes    *)
+(* added but not yet confirmed).  Sequentially this is the same function;   *)
+(* with two threads TLC refutes WithinLimit (the failing attempt's bytes    *)
+(* are visible in `reserved`) and NoSpuriousRefusal (a growth that fits is  *)
+(* refused because of them): this is why the implementation needs the CAS.  *)
 (***************************************************************************)
 EXTENDS Integers, Sequences, FiniteSets, TLC
 
@@ -33,7 +40,9 @@ CONSTANTS NC,        \* max consumers registered
           LIMITS,    \* limits explored (chosen in Init)
           SIZES,     \* operand sizes
           MAXOPS,
-          PERRES
+          PERRES,
+          MUT,          \* negative control: greedy try_grow as "fetch_add, then fetch_sub + error if over the limit"
+          FALLIBLE_ONLY \* infallible grow disabled (then a bounded greedy pool stays within its limit in EVERY state)
 
 Cons == 1..NC
 Res == 1..NR
@@ -69,8 +78,8 @@ Init ==
   /\ used = 0 /\ numSpill = 0 /\ spillable = 0 /\ unspillable = 0
   /\ tr = [c \in Cons |-> 0] /\ pk = [c \in Cons |-> 0] /\ present = [c \in Cons |-> FALSE]
   /\ run = 0 /\ peak = 0 /\ max = 0
-  /\ pc = [t \in Threads |-> "idle"] /\ pend = [t \in Threads |-> <<0, 0>>]
-  /\ nops = 0 /\ hist = <<>> /\ overc = FALSE
+  /\ pc = [t \in Threads |-> "idle"] /\ pend = [t \in Threads |-> <<0, 0, 0>>]
+  /\ nops = 0 /\ hist = <<>> /\ overc = {}
   /\ last = <<"init", 0, "init">>
 
 \* observation record of a completed operation (evaluated on the primed state: call it last)
@@ -86,13 +95,13 @@ Idle(t) == pc[t] = "idle" /\ nops < MAXOPS
 
 (* ------------------------- pool halves (atomic) -------------------------- *)
 \* pool.grow / successful try_grow of n by a reservation of consumer c
-PoolAdd(c, n) ==
-  /\ used' = used + n
+PoolAddRest(c, n) ==
   /\ IF kind = "fair" THEN IF spill[c] THEN spillable' = spillable + n /\ UNCHANGED unspillable
                                        ELSE unspillable' = unspillable + n /\ UNCHANGED spillable
      ELSE UNCHANGED <<spillable, unspillable>>
   /\ tr' = [tr EXCEPT ![c] = @ + n] /\ pk' = [pk EXCEPT ![c] = Max(@, tr[c] + n)]
   /\ run' = run + n /\ peak' = Max(peak, run + n) /\ max' = Max(max, run + n)
+PoolAdd(c, n) == used' = used + n /\ PoolAddRest(c, n)
 PoolSub(c, n) ==
   /\ used' = used - n
   /\ IF kind = "fair" THEN IF spill[c] THEN spillable' = spillable - n /\ UNCHANGED unspillable
@@ -124,26 +133,59 @@ Register(t, sp) ==
      /\ UNCHANGED <<kind, limit, used, spillable, unspillable, run, peak, max, pc, pend, overc>>
      /\ Done(t, IF sp THEN "register_spill" ELSE "register", r, 0, "ok", 0)
 
+\* what every thread has been granted (in the sizes, or granted and on its way into a size, or taken
+\* out of a size and not yet returned to the pool) - the pool total a correct pool reports
+Granted == Sum(size, AliveSet) + Sum([t \in Threads |-> pend[t][2]], Threads)
+
 \* grow / try_grow, first half: the pool
 GrowP(t, r, n, fallible) ==
   /\ Idle(t) /\ alive[r] /\ n > 0
+  /\ fallible \/ ~FALLIBLE_ONLY
+  /\ ~(MUT /\ fallible /\ kind = "greedy")
   /\ nops' = nops + 1
   /\ UNCHANGED <<kind, limit, resv, numSpill, present>>
   /\ IF fallible /\ ~Admit(r, n)
-       THEN /\ UNCHANGED <<used, spillable, unspillable, tr, pk, run, peak, max, pc, pend, overc>>
+       THEN /\ UNCHANGED <<used, spillable, unspillable, tr, pk, run, peak, max, pc, pend>>
+            \* ghost: a refusal is justified only by what the threads really hold
+            /\ overc' = IF kind = "greedy" /\ Granted + n <= limit THEN overc \cup {"spurious"} ELSE overc
             /\ Done(t, "try_grow", r, n, "err", IF AdmitPerRes(r, n) THEN 1 ELSE 0)
        ELSE /\ PoolAdd(owner[r], n)
             /\ pc' = [pc EXCEPT ![t] = IF fallible THEN "try_grow2" ELSE "grow2"]
-            /\ pend' = [pend EXCEPT ![t] = <<r, n>>]
+            /\ pend' = [pend EXCEPT ![t] = <<r, n, 0>>]
             \* ghost: a granted fallible growth of a spilling consumer stays within the consumer's share
-            /\ overc' = (overc \/ (fallible /\ kind = "fair" /\ spill[owner[r]] /\ ConsTotal(owner[r]) + n > Share))
+            /\ overc' = IF fallible /\ kind = "fair" /\ spill[owner[r]] /\ ConsTotal(owner[r]) + n > Share
+                           THEN overc \cup {"fair"} ELSE overc
             /\ last' = <<"t", t, "grow_pool">> /\ UNCHANGED hist
+
+\* MUT: greedy try_grow as optimistic add ...
+MutAdd(t, r, n) ==
+  /\ MUT /\ kind = "greedy" /\ Idle(t) /\ alive[r] /\ n > 0
+  /\ nops' = nops + 1
+  /\ used' = used + n
+  /\ pc' = [pc EXCEPT ![t] = "mut_check"] /\ pend' = [pend EXCEPT ![t] = <<r, 0, n>>]
+  /\ last' = <<"t", t, "mut_add">>
+  /\ UNCHANGED <<kind, limit, resv, numSpill, spillable, unspillable, wrapv, hist, overc>>
+\* ... then check, and roll back + fail when the total went over the limit
+MutCheck(t) ==
+  /\ pc[t] = "mut_check"
+  /\ UNCHANGED <<kind, limit, resv, numSpill, present, nops>>
+  /\ LET r == pend[t][1]  n == pend[t][3] IN
+     IF used > limit
+       THEN /\ used' = used - n
+            /\ pc' = [pc EXCEPT ![t] = "idle"] /\ pend' = [pend EXCEPT ![t] = <<0, 0, 0>>]
+            /\ UNCHANGED <<spillable, unspillable, tr, pk, run, peak, max>>
+            /\ overc' = IF Granted + n <= limit THEN overc \cup {"spurious"} ELSE overc
+            /\ Done(t, "try_grow", r, n, "err", 0)
+       ELSE /\ UNCHANGED used /\ PoolAddRest(owner[r], n)
+            /\ pc' = [pc EXCEPT ![t] = "try_grow2"] /\ pend' = [pend EXCEPT ![t] = <<r, n, 0>>]
+            /\ last' = <<"t", t, "mut_check">> /\ UNCHANGED <<hist, overc>>
+
 \* second half: the reservation's size
 GrowS(t) ==
   /\ pc[t] \in {"grow2", "try_grow2"}
   /\ LET r == pend[t][1]  n == pend[t][2] IN
      /\ size' = [size EXCEPT ![r] = @ + n]
-     /\ pc' = [pc EXCEPT ![t] = "idle"] /\ pend' = [pend EXCEPT ![t] = <<0, 0>>]
+     /\ pc' = [pc EXCEPT ![t] = "idle"] /\ pend' = [pend EXCEPT ![t] = <<0, 0, 0>>]
      /\ UNCHANGED <<kind, limit, spill, ncons, nres, owner, alive, poolv, wrapv, nops, overc>>
      /\ Done(t, IF pc[t] = "grow2" THEN "grow" ELSE "try_grow", r, n, "ok", 0)
 
@@ -160,13 +202,13 @@ ShrinkS(t, r, n, op) ==
        ELSE IF n = 0
          THEN /\ UNCHANGED <<size, pc, pend>> /\ Done(t, op, r, 0, "ok", 0)     \* free of an empty reservation
          ELSE /\ size' = [size EXCEPT ![r] = @ - n]
-              /\ pc' = [pc EXCEPT ![t] = op] /\ pend' = [pend EXCEPT ![t] = <<r, n>>]
+              /\ pc' = [pc EXCEPT ![t] = op] /\ pend' = [pend EXCEPT ![t] = <<r, n, 0>>]
               /\ last' = <<"t", t, "shrink_size">> /\ UNCHANGED hist
 ShrinkP(t) ==
   /\ pc[t] \in {"shrink", "try_shrink", "free"}
   /\ LET r == pend[t][1]  n == pend[t][2] IN
      /\ PoolSub(owner[r], n)
-     /\ pc' = [pc EXCEPT ![t] = "idle"] /\ pend' = [pend EXCEPT ![t] = <<0, 0>>]
+     /\ pc' = [pc EXCEPT ![t] = "idle"] /\ pend' = [pend EXCEPT ![t] = <<0, 0, 0>>]
      /\ UNCHANGED <<kind, limit, resv, numSpill, present, nops, overc>>
      /\ Done(t, pc[t], r, n, "ok", IF pc[t] = "free" THEN n ELSE size[r])
 
@@ -214,6 +256,8 @@ Next ==
   \E t \in Threads :
     \/ \E sp \in BOOLEAN : Register(t, sp)
     \/ \E r \in Res, n \in SIZES, f \in BOOLEAN : GrowP(t, r, n, f)
+    \/ \E r \in Res, n \in SIZES : MutAdd(t, r, n)
+    \/ MutCheck(t)
     \/ GrowS(t) \/ ShrinkP(t)
     \/ \E r \in Res, n \in SIZES : ShrinkS(t, r, n, "shrink") \/ ShrinkS(t, r, n, "try_shrink")
                                    \/ NewRes(t, r, n, "split")
@@ -225,8 +269,9 @@ Spec == Init /\ [][Next]_vars
 
 (* ------------------------------ invariants ------------------------------ *)
 PendSum == Sum([t \in Threads |-> pend[t][2]], Threads)
-\* reserved = sum of live reservation sizes (+ deltas in flight)
-Accounting == used = Sum(size, AliveSet) + PendSum
+OptSum == Sum([t \in Threads |-> pend[t][3]], Threads)
+\* reserved = sum of live reservation sizes (+ deltas in flight; + unconfirmed bytes under MUT)
+Accounting == used = Sum(size, AliveSet) + PendSum + OptSum
 AccountingQuiescent == Quiescent => used = Sum(size, AliveSet)
 AllDroppedZero == (AliveSet = {} /\ Quiescent) => (used = 0 /\ spillable = 0 /\ unspillable = 0 /\ numSpill = 0)
 FairState == kind = "fair" => (used = spillable + unspillable
@@ -234,8 +279,14 @@ FairState == kind = "fair" => (used = spillable + unspillable
 \* granted fallible growth keeps the greedy pool within its limit - unless an infallible grow pushed it over before
 Tracked == Quiescent => \A c \in Cons : IF present[c] THEN tr[c] = ConsTotal(c) /\ pk[c] >= tr[c]
                                                         ELSE ResOf(c) = {}
-PeakRec == run = used /\ peak >= run /\ max >= peak
-FairPerConsumer == ~overc
+PeakRec == run = used - OptSum /\ peak >= run /\ max >= peak
+FairPerConsumer == "fair" \notin overc
+\* with only fallible growth in play a bounded greedy pool reports at most its limit in EVERY state
+\* (what an observer thread sampling reserved() may rely on)
+WithinLimit == (FALLIBLE_ONLY /\ kind = "greedy") => used <= limit
+\* a fallible growth is refused only when it does not fit next to what the threads really hold: a
+\* try_grow that fits whatever the other threads can ever hold must succeed
+NoSpuriousRefusal == "spurious" \notin overc
 LastOp == hist[Len(hist)]
 FailedChangesNothing ==
   (T = 1 /\ Quiescent /\ Len(hist) >= 2 /\ LastOp.res = "err") =>
